@@ -7,7 +7,7 @@ while IFS=$'\t' read -r prop exp mode expr path; do
   if [ -n "${1:-}" ] && [ "$1" != "$prop" ]; then continue; fi
   n=$((n+1))
   out=$(selftest/mutant.sh "$prop" "$mode" "$expr" "$path" 2>&1)
-  if echo "$out" | grep -q "0 insertions\|^$" && ! echo "$out" | grep -q "file changed"; then echo "NOCHANGE $prop $path :: $expr"; fail=1; continue; fi
+  if echo "$out" | grep -q "SOURCE-UNCHANGED"; then echo "NOCHANGE $prop $path :: $expr"; fail=1; continue; fi
   if echo "$out" | grep -q "BROKEN"; then echo "BROKEN   $prop $path :: $expr"; echo "$out" | grep BROKEN | head -3; fail=1; continue; fi
   if echo "$out" | grep -q "^VIOLATION"; then got=V; else got=Q; fi
   if [ "$got" = "$exp" ]; then echo "ok($got)    $prop $path :: ${expr:0:70}"; else echo "MISMATCH want=$exp got=$got $prop $path :: $expr"; fail=1; fi
